@@ -1,3 +1,5 @@
+#[cfg(kanal_verif)]
+use crate::verif::core;
 use core::sync::atomic::{AtomicBool, Ordering};
 use lock_api::{GuardSend, RawMutex};
 
